@@ -69,6 +69,11 @@ def run(chk, searching=False):
     programs.append(("tls", [("LOGIN", None), ("SELECT", "Roles/%s/INBOX" % P.R1), ("XUNASSIGN", ""), ("FETCH", "1 (FLAGS)"), ("SELECT", "Roles/%s/INBOX" % P.R1)] + sel_cmds[:6]))
     programs.append(("tls", [("LOGIN", None), ("LIST", '"" "*"'), ("LSUB", '"" "*"'), ("STATUS", "Roles/%s/INBOX (MESSAGES)" % P.R2), ("APPEND", "Roles/%s/INBOX" % P.R2),
                              ("CREATE", "Roles/%s/X" % P.R2), ("DELETE", "Roles/%s/INBOX" % P.R2), ("RENAME", "Roles/%s/INBOX Mine" % P.R2), ("SUBSCRIBE", "Roles/%s/INBOX" % P.R2)]))
+    # CLOSE / EXPUNGE / UNSELECT with \Deleted messages waiting in BOTH stores under the same mailbox id: only the selected one may change
+    dele = ("STORE", "1 +FLAGS (\\Deleted)")
+    for last in (("CLOSE", ""), ("EXPUNGE", ""), ("UNSELECT", ""), ("UID", "EXPUNGE 1:*"), ("SELECT", "Sent"), ("LOGOUT", "")):
+        programs.append(("tls", [("LOGIN", None), ("SELECT", "INBOX"), dele, ("SELECT", "Roles/%s/INBOX" % P.R1), dele, last, ("STATUS", "INBOX (MESSAGES)")]))
+        programs.append(("tls", [("LOGIN", None), ("SELECT", "Roles/%s/INBOX" % P.R1), dele, ("SELECT", "INBOX"), dele, last, ("STATUS", "Roles/%s/INBOX (MESSAGES)" % P.R1)]))
     sess = P.run_sessions(chk, programs)
     good = [s for s in sess if not s["crashed"]]
     if len(good) < len(sess) // 2:
